@@ -58,6 +58,384 @@ theorem check_mono (P Q : Cfg → Bool) (hPQ : ∀ c, P c = true → Q c = true)
     | none => rfl
     | some c' => simp only [hs] at this ⊢; exact ih c' this
 
+/-! ### The general argument: an inductive invariant of the sender against *any* number of
+      threads of the other kinds, in any state -/
+
+/-- the initial connection is still installed and usable -/
+def Live (s : Sh) : Prop := s.tp = true ∧ s.pt = some .c0 ∧ s.open0 = true
+
+/-- what a step of any thread other than a sender can do to the shared state -/
+structure BenignStep (s s' : Sh) : Prop where
+  attempts : s'.attempts = s.attempts
+  tp : s'.tp = true → s.tp = true
+  pt : s'.pt = some .c0 → s.pt = some .c0
+  open0 : s'.open0 = true → s.open0 = true
+
+theorem BenignStep.rfl' (s : Sh) : BenignStep s s := ⟨rfl, id, id, id⟩
+
+theorem BenignStep.notLive {s s' : Sh} (h : BenignStep s s') (hl : ¬ Live s) : ¬ Live s' :=
+  fun ⟨a, b, c⟩ => hl ⟨h.tp a, h.pt b, h.open0 c⟩
+
+theorem BenignStep.writeLog {s s' : Sh} (h : BenignStep s s') : s'.writeLog = s.writeLog := by
+  unfold Sh.writeLog; rw [h.attempts]
+
+@[simp] theorem goto_kind (t : Th) (n : Nat) : (t.goto n).kind = t.kind := rfl
+@[simp] theorem fin_kind (t : Th) (x : Status) : (t.fin x).kind = t.kind := rfl
+@[simp] theorem closeConn_attempts (s : Sh) (c : Conn) : (s.closeConn c).attempts = s.attempts := by
+  cases c <;> rfl
+@[simp] theorem closeConn_tp (s : Sh) (c : Conn) : (s.closeConn c).tp = s.tp := by cases c <;> rfl
+@[simp] theorem closeConn_pt (s : Sh) (c : Conn) : (s.closeConn c).pt = s.pt := by cases c <;> rfl
+theorem closeConn_open0 (s : Sh) (c : Conn) : (s.closeConn c).open0 = true → s.open0 = true := by
+  cases c <;> simp [Sh.closeConn]
+theorem closeConn_benign (s : Sh) (c : Conn) : BenignStep s (s.closeConn c) :=
+  ⟨by simp, by simp, by simp, closeConn_open0 s c⟩
+
+def benignKind : Kind → Bool
+  | .send | .sendPinned => false
+  | _ => true
+
+theorem hook_benign {exc : Bool} {b : Nat} {t t' : Th} {s s' : Sh} {l : Label}
+    (h : hookStep exc b t s = some (l, t', s')) : BenignStep s s' ∧ t'.kind = t.kind := by
+  unfold hookStep at h
+  split at h
+  · simp at h; obtain ⟨_, rfl, rfl⟩ := h; exact ⟨⟨rfl, id, id, id⟩, rfl⟩
+  · split at h
+    · simp at h; obtain ⟨_, rfl, rfl⟩ := h; exact ⟨⟨rfl, id, id, id⟩, rfl⟩
+    · split at h
+      · simp at h; obtain ⟨_, rfl, rfl⟩ := h
+        exact ⟨⟨rfl, id, (by intro h; cases h), id⟩, rfl⟩
+      · cases h
+
+theorem lossFull_benign {exc : Bool} {t t' : Th} {s s' : Sh} {l : Label}
+    (h : lossFullStep exc t s = some (l, t', s')) : BenignStep s s' ∧ t'.kind = t.kind := by
+  unfold lossFullStep at h
+  split at h
+  · split at h <;> (simp at h; obtain ⟨_, rfl, rfl⟩ := h; exact ⟨BenignStep.rfl' _, rfl⟩)
+  · split at h <;> (simp at h; obtain ⟨_, rfl, rfl⟩ := h; exact ⟨BenignStep.rfl' _, rfl⟩)
+  · simp at h; obtain ⟨_, rfl, rfl⟩ := h; exact ⟨closeConn_benign _ _, rfl⟩
+  · exact hook_benign h
+
+theorem disconnect_benign {t t' : Th} {s s' : Sh} {l : Label}
+    (h : disconnectStep t s = some (l, t', s')) : BenignStep s s' ∧ t'.kind = t.kind := by
+  unfold disconnectStep at h
+  split at h
+  · simp at h; obtain ⟨_, rfl, rfl⟩ := h; exact ⟨BenignStep.rfl' _, rfl⟩
+  · simp at h; obtain ⟨_, rfl, rfl⟩ := h; exact ⟨BenignStep.rfl' _, (by split <;> rfl)⟩
+  · simp at h; obtain ⟨_, rfl, rfl⟩ := h; exact ⟨BenignStep.rfl' _, rfl⟩
+  · simp at h; obtain ⟨_, rfl, rfl⟩ := h; exact ⟨BenignStep.rfl' _, (by split <;> rfl)⟩
+  · split at h <;> (simp at h; obtain ⟨_, rfl, rfl⟩ := h; exact ⟨BenignStep.rfl' _, rfl⟩)
+  · simp at h; obtain ⟨_, rfl, rfl⟩ := h; exact ⟨closeConn_benign _ _, rfl⟩
+  · simp at h; obtain ⟨_, rfl, rfl⟩ := h
+    exact ⟨⟨rfl, (by intro h; cases h), id, id⟩, rfl⟩
+  · cases h
+
+theorem connMade_benign {g : Bool} {t t' : Th} {s s' : Sh} {l : Label}
+    (h : connMadeStep g t s = some (l, t', s')) : BenignStep s s' ∧ t'.kind = t.kind := by
+  unfold connMadeStep at h
+  split at h
+  · split at h
+    · cases h
+    · simp at h; obtain ⟨_, rfl, rfl⟩ := h
+      exact ⟨⟨rfl, id, (by intro h; cases h), id⟩, rfl⟩
+  · simp at h; obtain ⟨_, rfl, rfl⟩ := h; exact ⟨BenignStep.rfl' _, rfl⟩
+  · simp at h; obtain ⟨_, rfl, rfl⟩ := h; exact ⟨BenignStep.rfl' _, (by split <;> rfl)⟩
+  · simp at h; obtain ⟨_, rfl, rfl⟩ := h; exact ⟨⟨rfl, id, id, id⟩, rfl⟩
+  · cases h
+
+theorem benign_step {t t' : Th} {s s' : Sh} {l : Label} (hk : benignKind t.kind = true)
+    (h : stepTh t s = some (l, t', s')) : BenignStep s s' ∧ t'.kind = t.kind := by
+  unfold stepTh at h
+  split at h
+  · cases h
+  · cases hkind : t.kind with
+    | send => rw [hkind] at hk; cases hk
+    | sendPinned => rw [hkind] at hk; cases hk
+    | lossHook e => rw [hkind] at h; rw [← hkind]; exact hook_benign h
+    | lossFull e => rw [hkind] at h; rw [← hkind]; exact lossFull_benign h
+    | disconnect => rw [hkind] at h; rw [← hkind]; exact disconnect_benign h
+    | connMade g => rw [hkind] at h; rw [← hkind]; exact connMade_benign h
+
+/-- the invariant of the sending thread -/
+structure SInv (t : Th) (s : Sh) : Prop where
+  kind : t.kind = .send
+  ok : t.st = .running ∨ t.st = .returned
+  att : s.attempts.length ≤ 1
+  fresh : t.st = .running → t.pc ≤ 2 → s.attempts = []
+  pcb : t.st = .running → t.pc ≤ 4
+  loc : t.st = .running → 2 ≤ t.pc → t.lt.isSome = true
+  drop : t.st = .returned → s.writeLog.length ≠ 1 → ¬ Live s
+  l1 : t.st = .running → 2 ≤ t.pc → t.lt = some .c1 → ¬ Live s
+  l0 : t.st = .running → 3 ≤ t.pc → t.lt = some .c0 → ¬ Live s
+
+theorem sinv_returned {t : Th} {s : Sh} (hk : t.kind = .send) (hst : t.st = .returned)
+    (hatt : s.attempts.length ≤ 1) (hdrop : s.writeLog.length ≠ 1 → ¬ Live s) : SInv t s := by
+  have hne : t.st = .running → False := by intro h; rw [hst] at h; cases h
+  constructor
+  · exact hk
+  · exact Or.inr hst
+  · exact hatt
+  · intro h; exact (hne h).elim
+  · intro h; exact (hne h).elim
+  · intro h; exact (hne h).elim
+  · intro _; exact hdrop
+  · intro h; exact (hne h).elim
+  · intro h; exact (hne h).elim
+
+theorem sinv_running {t : Th} {s : Sh} (hk : t.kind = .send) (hst : t.st = .running)
+    (hatt : s.attempts.length ≤ 1) (hfresh : t.pc ≤ 2 → s.attempts = []) (hpcb : t.pc ≤ 4)
+    (hloc : 2 ≤ t.pc → t.lt.isSome = true) (hl1 : 2 ≤ t.pc → t.lt = some .c1 → ¬ Live s)
+    (hl0 : 3 ≤ t.pc → t.lt = some .c0 → ¬ Live s) : SInv t s := by
+  constructor
+  · exact hk
+  · exact Or.inl hst
+  · exact hatt
+  · intro _; exact hfresh
+  · intro _; exact hpcb
+  · intro _; exact hloc
+  · intro h; rw [hst] at h; cases h
+  · intro _; exact hl1
+  · intro _; exact hl0
+
+theorem sinv_init (s : Sh) (h : s.attempts = []) : SInv { kind := .send } s :=
+  sinv_running rfl rfl (by simp [h]) (fun _ => h) (by simp) (fun h => by simp at h)
+    (fun h => by simp at h) (fun h => by simp at h)
+
+theorem sinv_benign {t : Th} {s s' : Sh} (h : SInv t s) (b : BenignStep s s') : SInv t s' := by
+  constructor
+  · exact h.kind
+  · exact h.ok
+  · rw [b.attempts]; exact h.att
+  · intro a c; rw [b.attempts]; exact h.fresh a c
+  · exact h.pcb
+  · exact h.loc
+  · intro a c; exact b.notLive (h.drop a (by rw [← b.writeLog]; exact c))
+  · intro a c d; exact b.notLive (h.l1 a c d)
+  · intro a c d; exact b.notLive (h.l0 a c d)
+
+/-- the sender's own step preserves the invariant -/
+theorem sinv_send {t t' : Th} {s s' : Sh} {l : Label} (h : SInv t s)
+    (hs : stepTh t s = some (l, t', s')) : SInv t' s' := by
+  unfold stepTh at hs
+  split at hs
+  · cases hs
+  · rename_i hnr
+    have hrun : t.st = .running := by
+      cases h.ok with
+      | inl a => exact a
+      | inr a => exact absurd (by rw [a]; decide) hnr
+    rw [h.kind] at hs
+    simp only at hs
+    have hpc := h.pcb hrun
+    have hcases : t.pc = 0 ∨ t.pc = 1 ∨ t.pc = 2 ∨ t.pc = 3 ∨ t.pc = 4 := by omega
+    rcases hcases with p | p | p | p | p
+    · -- R tp
+      simp only [sendStep, p] at hs
+      simp at hs; obtain ⟨_, rfl, rfl⟩ := hs
+      have hat := h.fresh hrun (by omega)
+      by_cases htp : s.tp = true
+      · simp only [htp, if_true]
+        exact sinv_running h.kind hrun h.att (fun _ => hat) (by simp [Th.goto])
+          (fun c => by simp [Th.goto] at c) (fun c => by simp [Th.goto] at c)
+          (fun c => by simp [Th.goto] at c)
+      · simp only [htp]
+        exact sinv_returned h.kind rfl h.att (fun _ hl => htp hl.1)
+    · -- R pt
+      simp only [sendStep, p] at hs
+      have hat := h.fresh hrun (by omega)
+      cases hpt : s.pt with
+      | none =>
+        rw [hpt] at hs; simp at hs; obtain ⟨_, rfl, rfl⟩ := hs
+        exact sinv_returned h.kind rfl h.att (fun _ hl => by have := hl.2.1; rw [hpt] at this; cases this)
+      | some c =>
+        rw [hpt] at hs; simp at hs; obtain ⟨_, rfl, rfl⟩ := hs
+        refine sinv_running h.kind hrun h.att (fun _ => hat) (by simp) (fun _ => rfl) ?_
+          (fun c => by simp at c)
+        intro _ hc hl
+        simp at hc; subst hc
+        have := hl.2.1; rw [hpt] at this; cases this
+    · -- write
+      have hlt := h.loc hrun (by omega)
+      have hat := h.fresh hrun (by omega)
+      cases hl : t.lt with
+      | none => rw [hl] at hlt; cases hlt
+      | some c =>
+        simp only [sendStep, p, hl] at hs
+        by_cases ho : s.isOpen c = true
+        · simp only [ho, if_true] at hs
+          simp at hs; obtain ⟨_, rfl, rfl⟩ := hs
+          refine sinv_returned h.kind rfl (by simp [hat]) ?_
+          intro hw
+          exfalso; apply hw
+          simp [Sh.writeLog, hat]
+        · simp only [ho] at hs
+          simp at hs; obtain ⟨_, rfl, rfl⟩ := hs
+          refine sinv_running h.kind hrun (by simp [hat]) (fun c => by simp [Th.goto] at c)
+            (by simp [Th.goto]) (fun _ => by simp [Th.goto, hl]) ?_ ?_
+          · intro _ hc hlive
+            have : t.lt = some .c1 := hc
+            exact h.l1 hrun (by omega) this ⟨hlive.1, hlive.2.1, hlive.2.2⟩
+          · intro _ hc hlive
+            have hc' : t.lt = some .c0 := hc
+            rw [hl] at hc'; simp at hc'; subst hc'
+            exact ho hlive.2.2
+    · -- close
+      have hlt := h.loc hrun (by omega)
+      cases hl : t.lt with
+      | none => rw [hl] at hlt; cases hlt
+      | some c =>
+        simp only [sendStep, p, hl] at hs
+        simp at hs; obtain ⟨_, rfl, rfl⟩ := hs
+        have b := closeConn_benign s c
+        refine sinv_running h.kind hrun (by simp; exact h.att) (fun c => by simp [Th.goto] at c)
+          (by simp [Th.goto]) (fun _ => by simp [Th.goto, hl]) ?_ ?_
+        · intro _ hc; exact b.notLive (h.l1 hrun (by omega) hc)
+        · intro _ hc; exact b.notLive (h.l0 hrun (by omega) hc)
+    · -- conn_lost_callback
+      have hlt := h.loc hrun (by omega)
+      simp only [sendStep, p] at hs
+      simp at hs; obtain ⟨_, rfl, rfl⟩ := hs
+      refine sinv_returned h.kind rfl h.att ?_
+      intro _ hlive
+      cases hl : t.lt with
+      | none => rw [hl] at hlt; cases hlt
+      | some c =>
+        cases c with
+        | c0 => exact h.l0 hrun (by omega) hl hlive
+        | c1 => exact h.l1 hrun (by omega) hl hlive
+
+/-- a running sender is never blocked, and each of its steps brings it closer to the end -/
+theorem sinv_progress {t : Th} {s : Sh} (h : SInv t s) (hrun : t.st = .running) :
+    ∃ l t' s', stepTh t s = some (l, t', s') ∧ (t'.st = .returned ∨ (t'.st = .running ∧ t'.pc = t.pc + 1)) := by
+  have hpc := h.pcb hrun
+  have hcases : t.pc = 0 ∨ t.pc = 1 ∨ t.pc = 2 ∨ t.pc = 3 ∨ t.pc = 4 := by omega
+  unfold stepTh
+  rw [h.kind]
+  simp only [hrun, ne_eq, not_true_eq_false, if_false]
+  rcases hcases with p | p | p | p | p
+  · simp only [sendStep, p]
+    by_cases htp : s.tp = true
+    · exact ⟨_, _, _, rfl, Or.inr (by simp [htp, Th.goto, hrun, p])⟩
+    · exact ⟨_, _, _, rfl, Or.inl (by simp [htp, Th.fin])⟩
+  · simp only [sendStep, p]
+    cases hpt : s.pt with
+    | none => exact ⟨_, _, _, rfl, Or.inl rfl⟩
+    | some c => exact ⟨_, _, _, rfl, Or.inr ⟨hrun, by simp [p]⟩⟩
+  · have hlt := h.loc hrun (by omega)
+    cases hl : t.lt with
+    | none => rw [hl] at hlt; cases hlt
+    | some c =>
+      simp only [sendStep, p, hl]
+      by_cases ho : s.isOpen c = true
+      · simp only [ho, if_true]; exact ⟨_, _, _, rfl, Or.inl rfl⟩
+      · simp only [ho]; exact ⟨_, _, _, rfl, Or.inr ⟨hrun, by simp [Th.goto, p]⟩⟩
+  · have hlt := h.loc hrun (by omega)
+    cases hl : t.lt with
+    | none => rw [hl] at hlt; cases hlt
+    | some c =>
+      simp only [sendStep, p, hl]
+      exact ⟨_, _, _, rfl, Or.inr ⟨hrun, by simp [Th.goto, p]⟩⟩
+  · simp only [sendStep, p]
+    exact ⟨_, _, _, rfl, Or.inl rfl⟩
+
+/-- configuration-level invariant: thread 0 is a sender satisfying `SInv`, all others are of the
+    benign kinds (any number of them, in any state) -/
+def Good (c : Cfg) : Prop :=
+  ∃ t others, c.ths = t :: others ∧ SInv t c.sh ∧ ∀ o ∈ others, benignKind o.kind = true
+
+theorem good_step {i : Nat} {c c' : Cfg} (h : Good c) (hs : stepAt i c = some c') : Good c' := by
+  obtain ⟨t, others, hths, hinv, hben⟩ := h
+  unfold stepAt at hs
+  rw [hths] at hs
+  cases i with
+  | zero =>
+    simp only [List.getElem?_cons_zero] at hs
+    cases hst : stepTh t c.sh with
+    | none => rw [hst] at hs; cases hs
+    | some r =>
+      obtain ⟨l, t', s'⟩ := r
+      rw [hst] at hs; simp at hs; subst hs
+      exact ⟨t', others, by simp, sinv_send hinv hst, hben⟩
+  | succ k =>
+    simp only [List.getElem?_cons_succ] at hs
+    cases ho : others[k]? with
+    | none => rw [ho] at hs; cases hs
+    | some o =>
+      have hmem : o ∈ others := List.mem_of_getElem? ho
+      cases hst : stepTh o c.sh with
+      | none => simp [ho, hst] at hs
+      | some r =>
+        obtain ⟨l, o', s'⟩ := r
+        simp [ho, hst] at hs; subst hs
+        have hb := benign_step (hben o hmem) hst
+        refine ⟨t, others.set k o', by simp, sinv_benign hinv hb.1, ?_⟩
+        intro x hx
+        cases List.mem_or_eq_of_mem_set hx with
+        | inl h1 => exact hben x h1
+        | inr h2 => rw [h2, hb.2]; exact hben o hmem
+
+theorem good_run (s : List Nat) : ∀ c, Good c → Good (run c s) := by
+  induction s with
+  | nil => intro c h; exact h
+  | cons i s ih =>
+    intro c h
+    cases hs : stepAt i c with
+    | none => simp only [run, hs]; exact ih c h
+    | some c' => simp only [run, hs]; exact ih c' (good_step h hs)
+
+theorem good_sender {c : Cfg} (h : Good c) : SInv (sender c) c.sh := by
+  obtain ⟨t, others, hths, hinv, _⟩ := h
+  unfold sender; rw [hths]; exact hinv
+
+theorem good_stepAt_zero {c : Cfg} (h : Good c) (hrun : (sender c).st = .running) :
+    ∃ c', stepAt 0 c = some c' ∧ Good c' ∧
+      ((sender c').st = .returned ∨ ((sender c').st = .running ∧ (sender c').pc = (sender c).pc + 1)) := by
+  have hg := h
+  obtain ⟨t, others, hths, hinv, hben⟩ := h
+  have hst : sender c = t := by unfold sender; rw [hths]; rfl
+  rw [hst] at hrun
+  obtain ⟨l, t', s', hstep, hprog⟩ := sinv_progress hinv hrun
+  have hs : stepAt 0 c = some { sh := s', ths := c.ths.set 0 t' } := by
+    unfold stepAt; rw [hths]; simp [hstep]
+  refine ⟨_, hs, good_step hg hs, ?_⟩
+  have : sender { sh := s', ths := c.ths.set 0 t' } = t' := by
+    unfold sender; rw [hths]; rfl
+  rw [this, hst]; exact hprog
+
+/-- `k` own steps from program counter `≥ 5 - k` finish the sender -/
+theorem good_finish : ∀ (k : Nat) (c : Cfg), Good c →
+    ((sender c).st = .running → 5 ≤ (sender c).pc + k) →
+    (sender (run c (List.replicate k 0))).st = .returned := by
+  intro k
+  induction k with
+  | zero =>
+    intro c h hk
+    have hinv := good_sender h
+    cases hinv.ok with
+    | inl hrun => have := hinv.pcb hrun; have := hk hrun; omega
+    | inr hret => simpa [run] using hret
+  | succ k ih =>
+    intro c h hk
+    have hinv := good_sender h
+    cases hinv.ok with
+    | inl hrun =>
+      obtain ⟨c', hs, hg', hprog⟩ := good_stepAt_zero h hrun
+      simp only [List.replicate_succ, run, hs]
+      apply ih c' hg'
+      intro hrun'
+      cases hprog with
+      | inl hret => rw [hret] at hrun'; cases hrun'
+      | inr hp => have := hk hrun; omega
+    | inr hret =>
+      have hnone : stepAt 0 c = none := by
+        obtain ⟨t, others, hths, _, _⟩ := h
+        have hst : sender c = t := by unfold sender; rw [hths]; rfl
+        unfold stepAt; rw [hths]; simp
+        rw [hst] at hret
+        unfold stepTh; simp [hret]
+      simp only [List.replicate_succ, run, hnone]
+      apply ih c h
+      intro hrun; rw [hret] at hrun; cases hrun
+
 /-! ### Queue -/
 
 theorem listSet_getD {α} (l : List α) (i : Nat) (a d : α) (k : Nat) (hi : i < l.length) :
